@@ -977,6 +977,19 @@ func cursorMoveCore(p *Prog, r *Report, fb *fnBounds, f *ssa.Function, st ssa.In
 	}{}
 	for cf := range fb.facts[st.Block().Index] {
 		if !cf.pol {
+			// result == nil is false: the regexp matched (the early-return form of the test)
+			if bo, ok := cf.c.(*ssa.BinOp); ok && bo.Op == token.EQL {
+				for _, side := range []ssa.Value{bo.X, bo.Y} {
+					if call, ok := side.(*ssa.Call); ok && call.Call.StaticCallee() != nil && call.Call.StaticCallee().String() == "(*regexp.Regexp).FindStringIndex" {
+						et := "elem:int"
+						e1 := linVar(fmt.Sprintf("elem(%s[%s]@%s)", ssaName(call), linConst(1).String(), fb.versionAt(et, st)))
+						matched = append(matched, struct {
+							l   lin
+							why string
+						}{e1, "regexp match end"})
+					}
+				}
+			}
 			continue
 		}
 		if call, ok := cf.c.(*ssa.Call); ok && call.Call.StaticCallee() != nil && call.Call.StaticCallee().String() == "strings.HasPrefix" {
